@@ -65,6 +65,7 @@ def build(targets=("vdrive", "vblack", "vworker"), race=False):
         "vblack": ([], "./cmd/vdrive"),
         "vworker": (["-tags", "verif"], "./cmd/vworker"),
         "vdrive-race": (["-tags", "verif", "-race"], "./cmd/vdrive"),
+        "vblack-race": (["-race"], "./cmd/vdrive"),
         "grits": ([], None),
     }
     for t in targets:
